@@ -1,1 +1,2 @@
 import RoProofs.Gate
+import RoProofs.Script
